@@ -181,4 +181,44 @@ MUTANTS = [
  ("c03-single-sample-md-guess", T, """        if last_column_is_numeric or data_start == 0:""", """        if (last_column_is_numeric and len(header) > 1) or data_start == 0:""", ["C03"]),
  ("c03-convert-formatter-comma", "biom/cli/table_converter.py", """    'sc_separated': lambda x: '; '.join(x),""", """    'sc_separated': lambda x: ', '.join(x),""", ["C03"]),
  ("c03-zero-skip-threshold", T, """                if values[column_number] != dtype(0):""", """                if abs(values[column_number]) > 1e-300:""", ["C03"]),
+ ("c14-slicer-lookup-unsorted", "biom/parse.py", """    new_data = []
+    remap_lookup = {str(v): i for i, v in enumerate(sorted(to_keep))}
+    for rcv in data.split('],'):
+        if not strip_f(rcv):
+            continue
+        r, c, v = map(strip_f, rcv.split(','))""", """    new_data = []
+    remap_lookup = {str(v): i for i, v in enumerate(sorted(to_keep, key=str))}
+    for rcv in data.split('],'):
+        if not strip_f(rcv):
+            continue
+        r, c, v = map(strip_f, rcv.split(','))""", ["C14"]),
+ ("c14-subset-no-issubset-check", "biom/parse.py", """    if not to_keep.issubset(all_ids):
+        raise KeyError("Not all of the to_keep ids are in biom_str!")
+""", "", ["C14"]),
+ ("c14-h5-indptr-unsorted-pairs", T, """            indptr_indices = sorted(
+                (h5_indptr[i], h5_indptr[i+1]) for i in keep
+            )""", """            indptr_indices = sorted(
+                ((h5_indptr[i], h5_indptr[i+1]) for i in keep),
+                key=lambda se: se[1] - se[0])""", ["C14"]),
+ ("c14-h5-md-wrong-mask", T, """            obs_md = _subset_metadata(obs_md, obs_idx)
+            samp_md = _subset_metadata(samp_md, samp_idx)""", """            obs_md = _subset_metadata(obs_md, obs_idx)
+            samp_md = _subset_metadata(samp_md, samp_idx[::-1])""", ["C14"]),
+ ("c14-h5-no-empty-drop", T, """            axis = 'observation' if axis == 'sample' else 'sample'
+            t.filter(any_value, axis=axis)
+
+        return t""", """            axis = 'observation' if axis == 'sample' else 'sample'
+
+        return t""", ["C14"]),
+ ("c14-h5-unknown-ids-ignored", T, """                    if ids.shape != desired_ids.shape:
+                        raise ValueError(""", """                    if ids.shape[0] == 0:
+                        raise ValueError(""", ["C14"]),
+ ("c14-nomd-cumsum-off", T, """            indptr[1:] = np.array([e - s for s, e in start_end]).cumsum()""", """            indptr[1:] = np.array([e - s for s, e in start_end][::-1]).cumsum()""", ["C14"]),
+ ("c14-parse-json-no-drop", "biom/parse.py", """        axis = 'observation' if axis == 'sample' else 'sample'
+        t.filter(gt_zero, axis=axis)""", """        axis = 'observation' if axis == 'sample' else 'sample'""", ["C14"]),
+ ("c14-slicer-strip-regress", "biom/parse.py", """        r, c, v = map(strip_f, rcv.split(','))
+        if c in remap_lookup:""", """        r, c, v = rcv.split(',')
+        if c in remap_lookup:""", ["C14"]),
+ ("c14-cli-ids-file-keeps-comments", "biom/cli/table_subsetter.py", r"""            if not line.startswith('#'):
+                ids.append(line.strip().split('\t')[0])""", r"""            if True:
+                ids.append(line.strip().split('\t')[0])""", ["C14"]),
 ]
